@@ -7,7 +7,7 @@ import itertools
 import random
 
 from cnfgen.formula.cnf import CNF
-from cnfgen.localtypes import non_negative_int
+from cnfgen.localtypes import non_negative_int, seed_value
 
 def clause_satisfied(cls, assignments):
     """Test whether a clause is satisfied by all assignments
@@ -158,14 +158,8 @@ def RandomKCNF(k, n, m, seed=None, planted_assignments=None, formula_class=CNF):
     non_negative_int(k, 'k')
 
     if seed is not None:
-        if not isinstance(seed, (int, float, str, bytes, bytearray)):
-            # any hashable object is a seed: since python 3.11
-            # random.seed() takes just the types above. The text of
-            # the object, not its hash: hashes of strings change from
-            # one process to the next.
-            hash(seed)
-            seed = repr(seed)
-        random.seed(seed)
+        # any hashable object is a seed
+        random.seed(seed_value(seed))
 
     if planted_assignments is None:
         planted_assignments = []
